@@ -492,6 +492,20 @@ class _NpShim:
     def divide(self, a, b):
         return _div(a, b)
 
+    def _mm(self, a, b, gt):
+        f = _sminmax(gt)
+        if isinstance(a, (FArr, real_np.ndarray)) or isinstance(b, (FArr, real_np.ndarray)):
+            A = a.cells if isinstance(a, FArr) else [x.item() for x in a] if isinstance(a, real_np.ndarray) else None
+            B = b.cells if isinstance(b, FArr) else [x.item() for x in b] if isinstance(b, real_np.ndarray) else None
+            n = len(A if A is not None else B)
+            A = A if A is not None else [a] * n
+            B = B if B is not None else [b] * n
+            return FArr([f(x, y) for x, y in zip(A, B)], 'i8')
+        return f(a, b)
+
+    def minimum(self, a, b): return self._mm(a, b, False)
+    def maximum(self, a, b): return self._mm(a, b, True)
+
     def cumsum(self, a, **k):
         return real_np.cumsum(a, **k)
 
